@@ -172,8 +172,39 @@ fn strong_limit(name: &str, how: &str, cycle: bool, prefinalized: bool, max_rc: 
     println!("S {name} leak={}", LIVE.load(Ordering::Relaxed) - base);
 }
 
+/// C02 in the one API context the program language cannot express: `collect_cycles()` called
+/// from inside a `config(|c| ..)` closure (the configuration is borrowed meanwhile).
+fn contexts() {
+    std::panic::set_hook(Box::new(|_| {}));
+    println!("START contexts");
+    rust_cc::config::config(|c| c.set_auto_collect(false)).unwrap();
+    for inside in [false, true] {
+        reset();
+        let base = LIVE.load(Ordering::Relaxed);
+        {
+            let a = Cc::new(Node::new());
+            let b = Cc::new(Node::new());
+            let c = Cc::new(Node::new());
+            *a.next.borrow_mut() = Some(b.clone());
+            *b.next.borrow_mut() = Some(c.clone());
+            *c.next.borrow_mut() = Some(a.clone());
+        }
+        let before = rust_cc::state::allocated_bytes().unwrap();
+        if inside {
+            rust_cc::config::config(|_c| { collect_cycles(); collect_cycles(); }).unwrap();
+        } else {
+            collect_cycles(); collect_cycles();
+        }
+        println!("S ctx_collect_{} garbage_before={} fin={} dropped={} bytes={} leak={}",
+                 if inside { "in_config_closure" } else { "plain" }, (before > 0) as u8, fin(), dropped(),
+                 rust_cc::state::allocated_bytes().unwrap(), LIVE.load(Ordering::Relaxed) - base);
+    }
+    println!("DONE");
+}
+
 fn main() {
     let a: Vec<String> = std::env::args().collect();
+    if a.len() > 1 && a[1] == "ctx" { return contexts(); }
     let max_rc: u32 = a[1].parse().unwrap();
     let max_weak: u32 = a[2].parse().unwrap();
     std::panic::set_hook(Box::new(|_| {}));
